@@ -474,6 +474,42 @@ def C06(ck):
 
 
 # ------------------------------------------------------------------------------------------------
+def _tables_in_codecs(ck, T):
+    """The table that counts is the one a codec builds from the histogram IT prepared and then transmits: ANS0, ANS1 and RANGE on the
+    case space of the entropy driver (every log range and chunk size, several blocks through one encoder object, exact histograms).
+    KzEntropyFrame shows that encoder and decoder agree iff that table is valid, so a block that does not come back exactly convicts it."""
+    kzh = kzv.build_harness()
+    base = os.path.join(kzv.BUILD, 'tlc', 'enttab_%d' % os.getpid())
+    cmd = [kzh, 'entropy', '-n', str(3000 if T else 300), '-seed', str(ck.seed), '-out', base + '.ndjson', '-sum', base + '.sum', '-par', str(kzv.NCPU),
+           '-codecs', 'ANS0,ANS1,RANGE']
+    if T:
+        cmd.append('-thorough')
+    rc, so, se, dt = kzv.run(cmd, timeout=3 * 3600)
+    if rc != 0:
+        raise kzv.ToolFailure('entropy driver failed: ' + se[-1500:])
+    res = kzv.validate_trace('Trace_Entropy', base + '.ndjson', timeout=1800)
+    if res.error or res.violated:
+        raise kzv.ToolFailure('Trace_Entropy failed: %s %s' % (res.error, res.violated))
+    tr = kzv.read_ndjson(base + '.ndjson')
+    seen = set()
+    for e, pred in _violations_from(res.out, tr):
+        key = (e['codec'], e.get('args', ''))
+        if key in seen or len(seen) >= 6:
+            continue
+        seen.add(key)
+        ck.violation({'kind': 'codec_table', 'pred': 'C16_table_used_by_codec_invalid', 'how': pred, 'codec': e['codec'], 'len': e['len'], 'fam': e['fam'],
+                      'args': e.get('args', ''), 'msg': e.get('msg', '')[:120]},
+                     {'cmd': 'entropy', 'case': json.loads(e['desc']), 'event': {k: v for k, v in e.items() if k != 'desc'}}, name='codec_table')
+    n = len([e for e in tr if e.get('ev') == 'ENT'])
+    ck.cov['evaluations'] += n
+    ck.cov['traces_validated_against_impl'] += n
+    ck.cov['codec_level_blocks'] = n
+    ck.cov['states'] += res.distinct
+    for f in (base + '.ndjson', base + '.sum'):
+        if os.path.exists(f):
+            os.remove(f)
+
+
 LEVEL['C16'] = 'model_checking'
 
 
@@ -595,6 +631,7 @@ def C16(ck):
             h = [max(1, int(rnd.expovariate(1 / 50.0))) for _ in range(n)]
         cv = rnd.choice(convs)
         cases.append({'in': h, 'lr': lr, 'conv': cv[0], 'pos': cv[1]})
+    _tables_in_codecs(ck, T)
     kzh = kzv.build_harness()
     base = os.path.join(kzv.BUILD, 'tlc', 'norm_%d' % os.getpid())
     nchunks = min(kzv.NCPU, 16)
